@@ -84,6 +84,10 @@ Begin ==
 PosOrUnderflow(x, field) ==
   \/ IsPos(x)
   \/ (FEq(x, FZero) /\ info.valid /\ FGe(info[field], FZero) /\ FLt(info[field], c.tiny))
+\* the same for the smallest entry of a nonnegative-cone block (needs the previous pass's margins)
+PosOrUnderflowM(x, field) ==
+  \/ IsPos(x)
+  \/ (FEq(x, FZero) /\ info.valid /\ info.has_margins /\ FGe(info[field], FZero) /\ FLt(info[field], c.tiny))
 
 TSaveScalars ==
   /\ IsEv("SaveScalars") /\ SaveScalars
@@ -107,7 +111,7 @@ TUpdate ==
        \* C07: slack and dual iterates strictly inside K and K* (observer margins on the internal
        \* iterate; exact for nonnegative cones, up to rounding for the others)
        /\ (P("C07") /\ e.has_margins) =>
-            /\ IsPos(e.smin_nn) /\ IsPos(e.zmin_nn)
+            /\ PosOrUnderflowM(e.smin_nn, "smin_nn") /\ PosOrUnderflowM(e.zmin_nn, "zmin_nn")
             /\ FGt(e.smin_o, e.interior_floor) /\ FGt(e.zmin_o, e.interior_floor)
        \* the step length recorded for this pass is in [0,1]
        /\ P("C07") => (FGe(e.alpha, FZero) /\ FLe(e.alpha, FOne))
